@@ -1,0 +1,305 @@
+/* -*- C++ -*-
+ * Verification trace hooks (only compiled with -DDANMAR_CPPCHECK_VERIF).
+ *
+ * VERIF_EVT(name, fields)  append one JSON line to $CPPCHECK_VERIF_TRACE_DIR/<pid>.ndjson
+ *                          (fields is an expression yielding the inner part of a JSON object,
+ *                          built with the verif::kv helpers). Every event is also a fault point
+ *                          and a yield point.
+ * Without the define all macros expand to nothing.
+ */
+
+#ifndef verifTraceH
+#define verifTraceH
+
+#ifdef DANMAR_CPPCHECK_VERIF
+
+#include <cstdio>
+#include <cstdlib>
+#include <cstring>
+#include <csignal>
+#include <map>
+#include <mutex>
+#include <string>
+#include <thread>
+
+#include <fcntl.h>
+#include <unistd.h>
+#include <time.h>
+
+namespace verif {
+    struct State {
+        std::mutex mtx;
+        int fd = -1;
+        pid_t pid = 0;          // pid the fd belongs to
+        pid_t rootPid = 0;      // first process that traced
+        long seq = 0;           // per-process sequence number
+        long hits = 0;          // fault counter (matching events in this process)
+        std::map<std::thread::id, int> tids;
+        bool init = false;
+        bool on = false;
+        std::string dir;
+        // fault spec  role:point:k:how[:ctx]
+        bool fOn = false;
+        std::string fRole, fPoint, fHow, fCtx;
+        long fK = 0;
+        // scheduling noise
+        bool sOn = false;
+        unsigned long sSeed = 0;
+    };
+
+    inline State& st() {
+        static State s;
+        return s;
+    }
+
+    inline std::string& ctx() {
+        static thread_local std::string c;
+        return c;
+    }
+
+    inline void setCtx(const std::string& c) {
+        ctx() = c;
+    }
+
+    inline void initLocked(State& s) {
+        if (s.init)
+            return;
+        s.init = true;
+        const char* d = std::getenv("CPPCHECK_VERIF_TRACE_DIR");
+        if (d && *d) {
+            s.on = true;
+            s.dir = d;
+        }
+        s.rootPid = getpid();
+        const char* f = std::getenv("CPPCHECK_VERIF_FAULT");
+        if (f && *f) {
+            std::string spec(f);
+            std::string parts[5];
+            int n = 0;
+            std::string::size_type pos = 0;
+            while (n < 5) {
+                const std::string::size_type p2 = (n == 4) ? std::string::npos : spec.find(':', pos);
+                parts[n++] = spec.substr(pos, p2 == std::string::npos ? std::string::npos : p2 - pos);
+                if (p2 == std::string::npos)
+                    break;
+                pos = p2 + 1;
+            }
+            if (n >= 4) {
+                s.fOn = true;
+                s.fRole = parts[0];
+                s.fPoint = parts[1];
+                s.fK = std::atol(parts[2].c_str());
+                s.fHow = parts[3];
+                if (n == 5)
+                    s.fCtx = parts[4];
+            }
+        }
+        const char* sc = std::getenv("CPPCHECK_VERIF_SCHED");
+        if (sc && *sc) {
+            s.sOn = true;
+            s.sSeed = std::strtoul(sc, nullptr, 10);
+        }
+    }
+
+    inline bool active() {
+        State& s = st();
+        if (!s.init) {
+            std::lock_guard<std::mutex> lg(s.mtx);
+            initLocked(s);
+        }
+        return s.on || s.fOn || s.sOn;
+    }
+
+    inline std::string esc(const std::string& in) {
+        std::string out;
+        out.reserve(in.size() + 2);
+        out += '"';
+        for (const char ch : in) {
+            const unsigned char c = static_cast<unsigned char>(ch);
+            switch (c) {
+            case '"': out += "\\\""; break;
+            case '\\': out += "\\\\"; break;
+            case '\n': out += "\\n"; break;
+            case '\r': out += "\\r"; break;
+            case '\t': out += "\\t"; break;
+            default:
+                if (c < 0x20 || c >= 0x7f) {
+                    char buf[8];
+                    std::snprintf(buf, sizeof(buf), "\\u%04x", c);
+                    out += buf;
+                } else
+                    out += ch;
+            }
+        }
+        out += '"';
+        return out;
+    }
+
+    inline std::string kv(const char* k, const std::string& v) {
+        return std::string(",\"") + k + "\":" + esc(v);
+    }
+    inline std::string kv(const char* k, const char* v) {
+        return kv(k, std::string(v));
+    }
+    inline std::string kv(const char* k, long long v) {
+        return std::string(",\"") + k + "\":" + std::to_string(v);
+    }
+    inline std::string kv(const char* k, unsigned long long v) {
+        // hashes etc: log as string (TLC integers are 32 bit)
+        return std::string(",\"") + k + "\":\"" + std::to_string(v) + "\"";
+    }
+    inline std::string kv(const char* k, int v) {
+        return kv(k, static_cast<long long>(v));
+    }
+    inline std::string kv(const char* k, unsigned int v) {
+        return kv(k, static_cast<long long>(v));
+    }
+    inline std::string kv(const char* k, long v) {
+        return kv(k, static_cast<long long>(v));
+    }
+    inline std::string kv(const char* k, unsigned long v) {
+        return kv(k, static_cast<unsigned long long>(v));
+    }
+    inline std::string kb(const char* k, bool v) {
+        return std::string(",\"") + k + "\":" + (v ? "true" : "false");
+    }
+    // raw JSON value (array/object built by the caller)
+    inline std::string kraw(const char* k, const std::string& json) {
+        return std::string(",\"") + k + "\":" + json;
+    }
+
+    inline void die(const std::string& how) {
+        if (how == "KILL")
+            raise(SIGKILL);
+        else if (how == "SEGV") {
+            signal(SIGSEGV, SIG_DFL);
+            raise(SIGSEGV);
+        } else if (how == "ABRT") {
+            signal(SIGABRT, SIG_DFL);
+            raise(SIGABRT);
+        } else if (how.compare(0, 4, "exit") == 0)
+            _exit(std::atoi(how.c_str() + 4));
+        raise(SIGKILL);
+    }
+
+    inline void emit(const char* ev, const std::string& fields) {
+        State& s = st();
+        bool doDie = false;
+        long sleepUs = 0;
+        {
+            std::lock_guard<std::mutex> lg(s.mtx);
+            initLocked(s);
+            const pid_t me = getpid();
+            if (s.pid != me) {
+                // first event, or first event after fork(): own file, own counters
+                if (s.fd >= 0)
+                    close(s.fd);
+                s.fd = -1;
+                s.pid = me;
+                s.seq = 0;
+                s.hits = 0;
+                s.tids.clear();
+                if (s.on) {
+                    const std::string fn = s.dir + "/" + std::to_string(static_cast<long>(me)) + ".ndjson";
+                    s.fd = open(fn.c_str(), O_WRONLY | O_CREAT | O_APPEND, 0644);
+                }
+            }
+            const bool child = (me != s.rootPid);
+            if (s.fOn) {
+                const bool roleOk = s.fRole == "any" || (s.fRole == "child" && child) || (s.fRole == "parent" && !child);
+                const bool pointOk = s.fPoint == "evt" || s.fPoint == ev;
+                const bool ctxOk = s.fCtx.empty() || ctx().find(s.fCtx) != std::string::npos;
+                if (roleOk && pointOk && ctxOk) {
+                    if (s.hits == s.fK)
+                        doDie = true;
+                    ++s.hits;
+                }
+            }
+            if (s.fd >= 0) {
+                const std::thread::id t = std::this_thread::get_id();
+                auto it = s.tids.find(t);
+                if (it == s.tids.end())
+                    it = s.tids.emplace(t, static_cast<int>(s.tids.size())).first;
+                std::string line = "{\"pid\":" + std::to_string(static_cast<long>(me)) +
+                                   ",\"child\":" + (child ? "true" : "false") +
+                                   ",\"seq\":" + std::to_string(s.seq) +
+                                   ",\"tid\":" + std::to_string(it->second) +
+                                   ",\"e\":\"" + ev + "\"" +
+                                   (doDie ? ",\"dies\":true" : "") +
+                                   fields + "}\n";
+                const ssize_t r = write(s.fd, line.data(), line.size());
+                (void)r;
+            }
+            ++s.seq;
+            if (s.sOn && !doDie) {
+                unsigned long h = s.sSeed * 2654435761UL + static_cast<unsigned long>(s.seq) * 40503UL + static_cast<unsigned long>(me) * 9973UL;
+                h ^= h >> 13;
+                h *= 1274126177UL;
+                h ^= h >> 16;
+                if ((h & 3) == 0)
+                    sleepUs = static_cast<long>((h >> 4) % 1500);
+            }
+        }
+        if (doDie)
+            die(s.fHow);
+        if (sleepUs > 0) {
+            timespec ts;
+            ts.tv_sec = 0;
+            ts.tv_nsec = sleepUs * 1000;
+            nanosleep(&ts, nullptr);
+        }
+    }
+
+    // projection of a finding (ErrorMessage) to the logged key fields
+    template<class EM>
+    inline std::string msgKey(const EM& msg) {
+        std::string f;
+        long line = 0;
+        long col = 0;
+        if (!msg.callStack.empty()) {
+            f = msg.callStack.back().getfile(false);
+            line = msg.callStack.back().line;
+            col = msg.callStack.back().column;
+        }
+        return kv("id", msg.id) + kv("sev", severityToString(msg.severity)) +
+               kb("inc", msg.certainty == decltype(msg.certainty)::inconclusive) +
+               kv("file", f) + kv("line", line) + kv("col", col) +
+               kv("msg", msg.shortMessage()) + kv("file0", msg.file0) +
+               kv("nloc", static_cast<long>(msg.callStack.size()));
+    }
+
+    template<class S>
+    inline std::string supprKey(const S& s) {
+        return s.errorId + "|" + s.fileName + "|" + std::to_string(s.lineNumber) + "|" + s.symbolName;
+    }
+
+    inline std::string addr(const void* p) {
+        char buf[32];
+        std::snprintf(buf, sizeof(buf), "%p", p);
+        return buf;
+    }
+
+    // measured: is this mutex currently held by somebody (possibly by us)?
+    template<class M>
+    inline bool held(M& m) {
+        if (m.try_lock()) {
+            m.unlock();
+            return false;
+        }
+        return true;
+    }
+}
+
+#define VERIF_EVT(name, fields) do { if (verif::active()) verif::emit(name, std::string() + fields); } while (false)
+#define VERIF_CTX(c) do { if (verif::active()) verif::setCtx(c); } while (false)
+#define VERIF_ACTIVE() (verif::active())
+
+#else
+
+#define VERIF_EVT(name, fields) do {} while (false)
+#define VERIF_CTX(c) do {} while (false)
+#define VERIF_ACTIVE() (false)
+
+#endif // DANMAR_CPPCHECK_VERIF
+
+#endif // verifTraceH
